@@ -386,6 +386,22 @@ class Export(object):
                 # original dataset, we also create a new basin that
                 # refers to the original dataset itself.
                 basin_list = [bn.as_dict() for bn in ds.basins]
+                if ds.format == "hierarchy":
+                    # avoid circular imports
+                    from .fmt_hierarchy import map_indices_child2root
+                    # The basins of a hierarchy child are the basins of its
+                    # root parent, i.e. they enumerate the events of the
+                    # root parent. Map them to the events of the child.
+                    root_indices = map_indices_child2root(
+                        child=ds,
+                        child_indices=np.arange(len(ds))
+                    )
+                    for bn_dict in basin_list:
+                        basinmap_root = bn_dict.get("basin_map")
+                        if basinmap_root is None:
+                            bn_dict["basin_map"] = root_indices
+                        else:
+                            bn_dict["basin_map"] = basinmap_root[root_indices]
                 # In addition to the upstream basins, also store a reference
                 # to the original file from which the export was done.
                 if ds.format in get_basin_classes():
